@@ -19,6 +19,7 @@ func runC09(c *Ctx) {
 	c.mergeRule("sbom.(*Node).Augment", true, nodeIdentity)
 	c.floor("merge-precedence", 52, "26 Node fields × {Update, Augment}")
 	unionRules(c)
+	timestampPresenceRule(c, "timestamp-presence-by-nil", pkgFilter(c.reachDecls("timestamp-presence-by-nil", "sbom.(*NodeList).Union", "sbom.(*NodeList).Add"), "sbom."))
 }
 
 func runC12(c *Ctx) {
@@ -31,6 +32,7 @@ func runC12(c *Ctx) {
 	c.copyRule("sbom.(*NodeList).Copy", "NodeList")
 	c.floor("copy-field-exhaustive", 43, "26+3+6+5+3 schema fields")
 	aliasRules(c)
+	timestampPresenceRule(c, "timestamp-presence-by-nil", pkgFilter(c.reachDecls("timestamp-presence-by-nil", "sbom.(*Node).Copy", "sbom.(*NodeList).Copy", "sbom.(*Person).Copy", "sbom.(*ExternalReference).Copy", "sbom.(*Edge).Copy"), "sbom."))
 }
 
 func runC13(c *Ctx) {
@@ -61,6 +63,7 @@ func runC13(c *Ctx) {
 		"sbom.(*ExternalReference).flatString", "sbom.(*NodeList).Equal", "sbom.(*Node).Equal", "sbom.(*Node).HashesMatch")
 	schemaMapKeyRule(c, encDecls)
 	enumNameTableRule(c, encDecls)
+	timestampPresenceRule(c, "timestamp-presence-by-nil", encDecls)
 }
 
 func runC14(c *Ctx) {
